@@ -1222,3 +1222,110 @@ def cut_skip_same_sheet(ck, F, rule="SPILL"):
               "paste_from_clipboard skips a source cell because its coordinates are a paste target without checking that source and target "
               "sheet are the same: cutting a spilling anchor to another sheet leaves an orphan spill cell behind", f, l)
     ck.ob(rule, "paste_from_clipboard|seen_cells tests", k >= 1, "no membership test against seen_cells found", b.file, b.line)
+
+
+# ------------------------------------------------------------------------------------------------ MIRROR
+import collections
+from mir import rvalue_places
+_M_SW={"row":"column","rows":"columns","full_row":"full_column","height":"width","absolute_row":"absolute_column","displace_row":"displace_column","move_row":"move_column","Row":"Column","RowMove":"ColumnMove","CellVertical":"CellHorizontal"}
+_M_SW.update({v:k for k,v in list(_M_SW.items())})
+_M_TOK={"r":"c","c":"r","row":"column","rows":"columns","column":"row","columns":"rows","col":"row","cols":"rows","height":"width","width":"height"}
+def _m_swap(n):
+    if n is None: return n
+    if n in _M_SW: return _M_SW[n]
+    return "_".join(_M_TOK.get(p,p) for p in str(n).split("_"))
+def _m_canon(n):
+    # canonical spelling so that col/column compare equal
+    return "_".join({"col":"column","cols":"columns"}.get(p,p) for p in str(n).split("_"))
+def _m_sig(b, blocks, do_swap):
+    c=collections.Counter()
+    for bi in blocks:
+        blk=b.blocks[bi]
+        for s in blk["s"]:
+            rv=s["rv"]
+            key=[rv["k"]]
+            if rv["k"]=="bin": key.append(rv["op"])
+            names=[]
+            for pl in rvalue_places(rv)+[s["p"]]:
+                n=b.local_name(pl["l"])
+                if n: names.append(_m_canon(_m_swap(n)) if do_swap else _m_canon(n))
+                for e in place_proj(pl):
+                    if e[0]=="f" and e[2]: names.append(_m_canon(_m_swap(e[2])) if do_swap else _m_canon(e[2]))
+                    if e[0]=="dc": names.append(_m_swap(e[1]) if do_swap else e[1])
+            for o in (rv.get("a"),rv.get("b"),rv.get("o")):
+                if o and o.get("k"):
+                    d=str(o["k"].get("d"))
+                    if o["k"].get("s") is not None: d="<str>"
+                    if "promoted" in d: d="<promoted>"
+                    if do_swap: d=d.replace("LAST_ROW","LAST_X").replace("LAST_COLUMN","LAST_ROW").replace("LAST_X","LAST_COLUMN")
+                    if do_swap: d={"1048576_i32":"16384_i32","16384_i32":"1048576_i32"}.get(d,d)
+                    names.append(d)
+            c[tuple(key+sorted(set(names)))]+=1
+        t=blk["t"]
+        if t["k"]=="call":
+            ln=(b.callee_q(t) or "?").rsplit("::",1)[-1]
+            c[("call",_m_canon(_m_swap(ln)) if do_swap else _m_canon(ln))]+=1
+        elif t["k"]=="switch":
+            c[("switch",t["ty"],len(t["targets"]))]+=1
+        elif t["k"]=="return": c[("return",)]+=1
+    return c
+
+
+MIRROR_PAIRS = {
+    "struct": ["model::Model::can_delete_rows", "model::Model::can_insert_rows", "model::Model::can_move_rows_action",
+               "user_model::common::UserModel::insert_rows"],
+    "attrs": ["model::Model::delete_row_style", "model::Model::is_row_hidden", "model::Model::set_row_hidden", "model::Model::set_row_style",
+              "model::Model::set_sheet_row_style", "user_model::common::UserModel::set_rows_hidden"],
+    "frozen": ["model::Model::get_frozen_rows_count", "model::Model::set_frozen_rows", "types::Worksheet::set_frozen_rows",
+               "user_model::common::UserModel::get_frozen_rows_count", "user_model::common::UserModel::set_frozen_rows_count"],
+}
+MIRROR_ARMS = [("Row", "Column"), ("RowMove", "ColumnMove"), ("CellVertical", "CellHorizontal")]
+
+
+def _m_swapname(q):
+    head, _, last = q.rpartition("::")
+    m = {"row": "column", "rows": "columns", "column": "row", "columns": "rows", "col": "row", "cols": "rows"}
+    return head + "::" + "_".join(m.get(p, p) for p in last.split("_"))
+
+
+def mirror_rule(ck, F, groups, rule="MIRROR", arms=False):
+    """Row code and column code are mirror images: each armed pair (a function named ..row.. and its ..column.. sibling;
+    the Row/Column, RowMove/ColumnMove, CellVertical/CellHorizontal arms of stringify_reference) has the same multiset of
+    statements, calls, comparisons, switches and constants once row<->column, height<->width, r<->c, LAST_ROW<->LAST_COLUMN
+    are exchanged.  A change made to one side only (a guard dropped, a flag crossed, an off-by-one) breaks the equality."""
+    from mir import enum_switches, arm_region
+    for g in groups:
+        for name in MIRROR_PAIRS[g]:
+            b1 = ck.need(F.one, name)
+            sq = _m_swapname(b1.qname)
+            p2 = F.find(sq.split("::", 1)[-1])
+            if not p2:
+                ck.ob(rule, "%s|sibling" % name, False, "the column sibling %s of %s was not found" % (sq, name), b1.file, b1.line)
+                continue
+            b2 = F.body(p2[0])
+            s1 = _m_sig(b1, [i for i in range(len(b1.blocks)) if not b1.is_cleanup(i)], True)
+            s2 = _m_sig(b2, [i for i in range(len(b2.blocks)) if not b2.is_cleanup(i)], False)
+            d1, d2 = list((s1 - s2).items())[:3], list((s2 - s1).items())[:3]
+            ck.ob(rule, "%s|mirror of its column sibling" % name.split("::", 1)[-1], s1 == s2,
+                  "%s and %s are no longer mirror images: only in the row version %s, only in the column version %s"
+                  % (name.rsplit("::", 1)[-1], sq.rsplit("::", 1)[-1], d1, d2), b1.file, b1.line, sample={"pair": name, "statements": sum(s1.values())})
+    if arms:
+        DD = "ironcalc_base::expressions::parser::stringify::DisplaceData"
+        b = ck.need(F.one, "stringify::stringify_reference")
+        sws = enum_switches(b, DD)
+        if not sws:
+            ck.ob(rule, "stringify_reference|arms", False, "DisplaceData match not found", b.file, b.line)
+            return
+        sw = sws[0]
+        regions = {v: arm_region(b, sw[0], e) for v, e in sw[1].items() if e is not None}
+        shared = set.intersection(*regions.values())
+        for a, c in MIRROR_ARMS:
+            if a not in regions or c not in regions:
+                ck.ob(rule, "stringify_reference|%s/%s" % (a, c), False, "arm missing", b.file, b.line)
+                continue
+            sa, sc = _m_sig(b, regions[a] - shared, True), _m_sig(b, regions[c] - shared, False)
+            d1, d2 = list((sa - sc).items())[:3], list((sc - sa).items())[:3]
+            f, l = b.loc(sw[1][a])
+            ck.ob(rule, "stringify_reference|%s arm mirrors %s arm" % (a, c), sa == sc,
+                  "the DisplaceData::%s and ::%s arms of stringify_reference are no longer mirror images: only in %s %s, only in %s %s"
+                  % (a, c, a, d1, c, d2), f, l, sample={"arms": [a, c], "statements": sum(sa.values())})
